@@ -4,7 +4,7 @@ import Driver.Util
 /-! engine `timed`: trace acceptor for the C07 runs of the `sched` harness (virtual clock, scripted
     hosts, watchdog).  Times are seconds since the start of the run.
 
-    init <if|while> <f> <ct> <ut> <sopt> <selfcheck>   start a new trace                         -> ok
+    init <if|while> <f> <ct> <ut> <sopt> <selfcheck> <stopwdog>   start a new trace              -> ok
     host <ok|refuse|hang> <d> <out> <err>     one target's script, in target order; a stream is `-` or
                                               a comma list of <t|->:<dN|e|x>  (data N bytes, eof, error) -> ok
     go                                        all hosts given                                    -> ok
@@ -21,7 +21,7 @@ structure Acc where
   dead : Bool := false
   v : Fan.Variant := .whileWait
   f : Nat := 1
-  cfg : Cfg := { ct := 0, ut := 0, sopt := false, selfCheck := false }
+  cfg : Cfg := { ct := 0, ut := 0, sopt := false, selfCheck := false, stopWdog := false }
   scripts : List Script := []
 
 def names (t : String) : List String := if t = "-" then [] else t.splitOn ","
@@ -118,11 +118,11 @@ def parseEv (s : St) : List String → Except String Label
 
 def stepLine (a : Acc) (line : String) : Acc × String :=
   match Driver.words line with
-  | ["init", v, f, ct, ut, sopt, sc] =>
+  | ["init", v, f, ct, ut, sopt, sc, sw] =>
     match f.toNat?, ct.toNat?, ut.toNat? with
     | some f, some ct, some ut =>
       ({ st := none, dead := false, v := if v = "if" then .ifWait else .whileWait, f := f,
-         cfg := { ct := ct, ut := ut, sopt := sopt = "1", selfCheck := sc = "1" }, scripts := [] }, "ok")
+         cfg := { ct := ct, ut := ut, sopt := sopt = "1", selfCheck := sc = "1", stopWdog := sw = "1" }, scripts := [] }, "ok")
     | _, _, _ => (a, "bad-line")
   | ["host", k, d, o, e] =>
     match d.toNat?, parseItems o, parseItems e with
